@@ -129,6 +129,7 @@ func Shapes(syn Syntax, full bool) []Shape {
 				add(Shape{Name: "delimited " + n, Type: t, Label: opt, Features: fs(&descriptorpb.FeatureSet{MessageEncoding: descriptorpb.FeatureSet_DELIMITED.Enum()})})
 				add(Shape{Name: "repeated delimited " + n, Type: t, Label: rep, Features: fs(&descriptorpb.FeatureSet{MessageEncoding: descriptorpb.FeatureSet_DELIMITED.Enum()})})
 				add(Shape{Name: "lazy " + n, Type: t, Label: opt, Lazy: true})
+				add(Shape{Name: "lazy delimited " + n, Type: t, Label: opt, Lazy: true, Features: fs(&descriptorpb.FeatureSet{MessageEncoding: descriptorpb.FeatureSet_DELIMITED.Enum()})})
 			}
 			if packable(t) {
 				add(Shape{Name: "repeated expanded " + n, Type: t, Label: rep, Features: fs(&descriptorpb.FeatureSet{RepeatedFieldEncoding: descriptorpb.FeatureSet_EXPANDED.Enum()})})
